@@ -57,6 +57,18 @@ impl Property for C18 {
     fn components(&self) -> Value {
         host_components()
     }
+    fn extra_evidence(&self, ws: &crate::ws::Ws, exec: &Executor, opts: &crate::Opts) -> Result<Option<(String, Value)>, String> {
+        // validate the model of the process world against real executions (not part of the verdict)
+        let n = if opts.tier == "quick" { 64 } else { 600 };
+        let conf = crate::conformance::run(ws, exec, n, opts.seed, opts.workers)?;
+        if !conf.disagreements.is_empty() {
+            println!("WARNING: stub conformance: {} of {} scenarios behave differently with real processes:", conf.disagreements.len(), conf.scenarios);
+            for d in conf.disagreements.iter().take(5) {
+                println!("WARNING:   {d}");
+            }
+        }
+        Ok(Some(("stub_conformance".into(), conf.to_json())))
+    }
 }
 
 pub struct C07;
